@@ -1,0 +1,26 @@
+//go:build verif
+
+package risc
+
+// VerifHooks are callbacks installed by the verification harness (build tag
+// "verif"). They are never set by the simulator itself.
+type VerifHooks struct {
+	// Tick is called at the beginning of every iteration of every run loop.
+	Tick func(cycle int)
+}
+
+type verifState struct {
+	hooks *VerifHooks
+}
+
+// SetVerifHooks installs the verification callbacks for this context.
+func (ctx *Context) SetVerifHooks(h *VerifHooks) {
+	ctx.verif.hooks = h
+}
+
+// VerifTick is called by every processor variant once per loop iteration.
+func (ctx *Context) VerifTick(cycle int) {
+	if h := ctx.verif.hooks; h != nil && h.Tick != nil {
+		h.Tick(cycle)
+	}
+}
